@@ -49,7 +49,7 @@ fn to_byte(text: &str, p: Position) -> Option<usize> {
   (n == p.character).then_some(text.len())
 }
 
-fn covers(text: &str, r: &PositionRange, cooked: &str, quoteless: bool) -> Result<(), String> {
+fn covers(text: &str, r: &PositionRange, cooked: &str, quoteless: bool, pragma: bool) -> Result<(), String> {
   let (Some(s), Some(e)) = (to_byte(text, r.start), to_byte(text, r.end)) else {
     return Err(format!("range {r:?} of {cooked:?} is outside the text"));
   };
@@ -59,12 +59,22 @@ fn covers(text: &str, r: &PositionRange, cooked: &str, quoteless: bool) -> Resul
   if slice.contains('\r') {
     return Ok(()); // CR LF inside a template is cooked to LF
   }
-  let ok = if quoteless || !slice.starts_with(['"', '\'', '`']) {
+  // either the range is the specifier text itself (quoteless forms, and a
+  // quote character that is part of a quoteless pragma value), or it is the
+  // specifier between two quote characters (the comment pragmas accept a
+  // mismatched pair, `types=".'`, which is leniency of the directive parser,
+  // not a range error)
+  let quotes = ['"', '\'', '`'];
+  let ok = if quoteless || slice == cooked {
     slice == cooked
   } else if slice.contains('\\') {
     true // escapes: the generated layer of C08 checks cooked values
   } else {
-    slice.len() >= 2 && slice.chars().next() == slice.chars().last() && &slice[1..slice.len() - 1] == cooked
+    slice.len() >= 2
+      && slice.starts_with(quotes)
+      && slice.ends_with(quotes)
+      && (pragma || slice.chars().next() == slice.chars().last())
+      && &slice[1..slice.len() - 1] == cooked
   };
   if ok {
     Ok(())
@@ -74,7 +84,7 @@ fn covers(text: &str, r: &PositionRange, cooked: &str, quoteless: bool) -> Resul
 }
 
 fn swr(text: &str, x: &SpecifierWithRange, quoteless: bool, what: &str) -> Option<String> {
-  covers(text, &x.range, &x.text, quoteless).err().map(|e| format!("C08/fuzz/range-does-not-cover-specifier/{what}: {e}"))
+  covers(text, &x.range, &x.text, quoteless, true).err().map(|e| format!("C08/fuzz/range-does-not-cover-specifier/{what}: {e}"))
 }
 
 /// `None` = holds (or the input is not analysable)
@@ -132,7 +142,7 @@ pub fn check(mt: deno_ast::MediaType, text: &str) -> Option<String> {
   for d in &info.dependencies {
     match d {
       DependencyDescriptor::Static(s) => {
-        if let Err(e) = covers(text, &s.specifier_range, &s.specifier, false) {
+        if let Err(e) = covers(text, &s.specifier_range, &s.specifier, false, false) {
           return Some(format!("C08/fuzz/range-does-not-cover-specifier/static: {e}"));
         }
         if let Some(t) = &s.types_specifier {
@@ -143,7 +153,7 @@ pub fn check(mt: deno_ast::MediaType, text: &str) -> Option<String> {
       }
       DependencyDescriptor::Dynamic(dd) => {
         if let DynamicArgument::String(a) = &dd.argument {
-          if let Err(e) = covers(text, &dd.argument_range, a, false) {
+          if let Err(e) = covers(text, &dd.argument_range, a, false, false) {
             return Some(format!("C08/fuzz/range-does-not-cover-specifier/dynamic: {e}"));
           }
         }
@@ -200,5 +210,23 @@ pub fn run(data: &[u8]) -> Option<String> {
   let mt = MEDIA[(data[0] % 8) as usize];
   let text = std::str::from_utf8(&data[1..]).ok()?;
   let text = text.strip_prefix('\u{feff}').unwrap_or(text);
+  // the recursive-descent parser overflows the stack on deeply nested
+  // brackets (a limit of the parser, not of the analysis): keep away from it,
+  // or every campaign ends in that crash
+  let mut depth = 0i32;
+  let mut max_depth = 0i32;
+  for b in text.bytes() {
+    match b {
+      b'(' | b'[' | b'{' | b'<' | b'`' => {
+        depth += 1;
+        max_depth = max_depth.max(depth);
+      }
+      b')' | b']' | b'}' | b'>' => depth = (depth - 1).max(0),
+      _ => {}
+    }
+  }
+  if max_depth > 64 {
+    return None;
+  }
   check(mt, text)
 }
